@@ -4,9 +4,9 @@
 usage:  python c04_bobquery.py <request.json> <reply.json>
 
 request: {"dir": project dir, "defines": {k: v}, "config": [names], "sandbox": bool,
-          "mode": "normal" | "nomemo", "queries": [package path queries]}
-  mode "nomemo" disables every in-memory memo of Recipe.prepare *from the outside* (no source hook):
-  PackageMatcher.matches never hits and Recipe.__corePackagesById never deduplicates.
+          "mode": "normal" | "nomatch" | "nomemo", "queries": [package path queries]}
+  mode "nomatch" disables the memo lookup of Recipe.prepare *from the outside* (no source hook): PackageMatcher.matches
+  never hits; mode "nomemo" additionally makes Recipe.__corePackagesById never deduplicate.
 reply:   {"dump": ..., "key": hex, "inputHash": hex, "files": [names], "rootEnv": {..}, "memo": {...}}
          or {"error": [kind, text]}
 
@@ -26,10 +26,12 @@ class NoDedup(dict):
         return value
 
 
-def disable_memo(I):
+def disable_memo(I, dedup_too=True):
     if not hasattr(I, "PackageMatcher") or not hasattr(I.PackageMatcher, "matches"):
         raise RuntimeError("PackageMatcher.matches not found")
     I.PackageMatcher.matches = lambda self, *a, **k: False
+    if not dedup_too:
+        return
     orig_init = I.Recipe.__init__
 
     def init(self, *a, **k):
@@ -147,6 +149,8 @@ def query(req):
     import bob.input as I
     if req.get("mode") == "nomemo":
         disable_memo(I)
+    elif req.get("mode") == "nomatch":
+        disable_memo(I, dedup_too=False)
     os.chdir(req["dir"])
     loaded = []
     orig_ly, orig_lb = I.YamlCache.loadYaml, I.YamlCache.loadBinary
